@@ -91,6 +91,7 @@ type filtState struct {
 	inIter bool
 	m, a   bool
 	e1, e2 bool
+	rs     string             // per loop that tries patterns: '0' not reached, '1' entered, '2' exhausted
 	env    map[ssa.Value]byte // 'T', 'F', 'M' (the result of a match on the element, not yet branched on), 'N' (its negation)
 }
 
@@ -108,7 +109,7 @@ func (s filtState) key() string {
 		names = append(names, v.Name()+"="+string(x))
 	}
 	sort.Strings(names)
-	return string(k) + "|" + strings.Join(names, ",")
+	return string(k) + "|" + s.rs + "|" + strings.Join(names, ",")
 }
 
 type filtWalk struct {
@@ -175,6 +176,10 @@ func (w *filtWalk) matchLike0(call *ssa.Call) bool {
 	}
 	if FuncName(g) == "(IgnorePatterns).Match" {
 		return len(call.Call.Args) == 2 && w.isElem(call.Call.Args[1])
+	}
+	if calleeFullName(&call.Call) == "(*regexp.Regexp).MatchString" && len(call.Call.Args) == 2 {
+		f, base := fieldLoad(call.Call.Args[1])
+		return f == "Error.Message" && w.isElem(base)
 	}
 	if !inModule(g) || g.Blocks == nil || w.depth >= 2 || g.Signature.Results().Len() != 1 {
 		return false
@@ -275,10 +280,42 @@ func (w *filtWalk) run() {
 			work = append(work, s)
 		}
 	}
+	// the loops over a slice that try patterns on the element (other than the loop over the input itself), recognised by
+	// their test `index < len(slice)` even when no path leads back to it (go/ssa then fuses the header with its predecessor): a verdict "no pattern matched" (return false, append) is only right
+	// when each of them that was entered has also been exhausted
+	var tryHeads []*ssa.BasicBlock
+	for _, h := range w.fn.Blocks {
+		if h == w.head || !endsInIndexBelowLen(h) {
+			continue
+		}
+		tries := false
+		for b := range reachableBlocks([]*ssa.BasicBlock{h.Succs[0]}, map[*ssa.BasicBlock]bool{h: true}) {
+			if w.head != nil && !w.body[b] {
+				continue
+			}
+			for _, in := range b.Instrs {
+				if v, ok := in.(ssa.Value); ok && w.matchLike(v) {
+					tries = true
+				}
+			}
+		}
+		if tries {
+			tryHeads = append(tryHeads, h)
+		}
+	}
+	work[0].rs = strings.Repeat("0", len(tryHeads))
+	entered := func(s filtState) bool { return strings.Contains(s.rs, "1") }
 	for len(work) > 0 {
 		s := work[len(work)-1]
 		work = work[:len(work)-1]
 		b := s.b
+		for k, h := range tryHeads {
+			if b == h {
+				rs := []byte(s.rs)
+				rs[k] = '1'
+				s.rs = string(rs)
+			}
+		}
 		for _, in := range b.Instrs {
 			switch x := in.(type) {
 			case *ssa.Call:
@@ -291,6 +328,8 @@ func (w *filtWalk) run() {
 								}
 								if s.m {
 									w.problem(x.Pos(), "a diagnostic is appended to the result on a path on which a pattern matched it")
+								} else if entered(s) {
+									w.problem(x.Pos(), "a diagnostic is kept although a loop that tries the patterns one after the other was left before all of them were consulted")
 								}
 								if !s.inIter {
 									w.problem(x.Pos(), "an element of the input is appended outside the loop over the input")
@@ -318,10 +357,14 @@ func (w *filtWalk) run() {
 					case 'F':
 						if s.m {
 							w.retsOfM = false
+						} else if entered(s) {
+							w.problem(x.Pos(), "the answer `no pattern matches` is given although the loop over the patterns was left before all of them were consulted")
 						}
 					case 'M':
 						if s.m {
 							w.retsOfM = false
+						} else if entered(s) {
+							w.problem(x.Pos(), "the verdict of one pattern is returned from inside the loop over the patterns: the remaining patterns are not consulted")
 						}
 					default:
 						w.retsOfM = false
@@ -402,7 +445,7 @@ func (w *filtWalk) run() {
 		}
 		for _, i := range outs {
 			to := b.Succs[i]
-			n := filtState{b: to, inIter: s.inIter, m: s.m, a: s.a, e1: s.e1, e2: s.e2, env: map[ssa.Value]byte{}}
+			n := filtState{b: to, inIter: s.inIter, m: s.m, a: s.a, e1: s.e1, e2: s.e2, rs: s.rs, env: map[ssa.Value]byte{}}
 			for k, v := range s.env {
 				n.env[k] = v
 			}
@@ -434,6 +477,13 @@ func (w *filtWalk) run() {
 					n.env[ph] = v
 				}
 			}
+			rs := []byte(n.rs)
+			for k, h := range tryHeads {
+				if b == h && i == 1 {
+					rs[k] = '2'
+				}
+			}
+			n.rs = string(rs)
 			if w.head != nil {
 				switch {
 				case to == w.head && w.body[b]:
@@ -443,6 +493,7 @@ func (w *filtWalk) run() {
 					}
 					n.inIter, n.m, n.a = false, false, false
 					n.env = map[ssa.Value]byte{}
+					n.rs = strings.Repeat("0", len(tryHeads))
 				case b == w.head && w.body[to]:
 					n.inIter, n.m, n.a = true, false, false
 				case w.body[b] && !w.body[to] && b != w.head:
@@ -500,4 +551,51 @@ func filterDropsIffMatched(fn *ssa.Function, input *ssa.Parameter) (problems []s
 	w.run()
 	sort.Strings(w.problems)
 	return w.problems, w.nApp, w.nInput
+}
+
+// returnsSomePatternMatched analyses g, a function that gets a diagnostic as parameter number elem: "" when every return of
+// g hands back true exactly on the paths on which a pattern was matched against that diagnostic's message and came out
+// true, and no loop over patterns is given up before a match; else what is wrong.
+func returnsSomePatternMatched(g *ssa.Function, elem int) string {
+	if g.Blocks == nil || elem >= len(g.Params) {
+		return "no body"
+	}
+	par := g.Params[elem]
+	h := &filtWalk{fn: g, isElem: func(x ssa.Value) bool { return x == ssa.Value(par) }, depth: 1, retsOfM: true}
+	h.run()
+	switch {
+	case len(h.problems) > 0:
+		sort.Strings(h.problems)
+		return strings.Join(h.problems, "; ")
+	case h.nRet == 0:
+		return "no return"
+	case !h.retsOfM:
+		return "a return does not hand back whether some pattern matched (true without a match, false after one, or a value that is neither)"
+	}
+	return ""
+}
+
+// endsInIndexBelowLen: the block ends in `if i < len(s)` for a slice s: the head of a loop over the slice (or what is left of
+// it when its body never goes round).
+func endsInIndexBelowLen(b *ssa.BasicBlock) bool {
+	if len(b.Instrs) == 0 || len(b.Succs) != 2 {
+		return false
+	}
+	ifi, ok := b.Instrs[len(b.Instrs)-1].(*ssa.If)
+	if !ok {
+		return false
+	}
+	bo, ok := ifi.Cond.(*ssa.BinOp)
+	if !ok || bo.Op != token.LSS {
+		return false
+	}
+	call, ok := bo.Y.(*ssa.Call)
+	if !ok {
+		return false
+	}
+	if bi, ok := call.Call.Value.(*ssa.Builtin); !ok || bi.Name() != "len" {
+		return false
+	}
+	_, isSlice := call.Call.Args[0].Type().Underlying().(*types.Slice)
+	return isSlice
 }
